@@ -279,7 +279,7 @@ namespace link_layer {
         struct phy_update_request_impl
         {
             template < class LL >
-            bool handle_phy_request( std::uint8_t opcode, std::uint8_t size, const write_buffer& pdu, read_buffer& write, LL& link_layer, bool& commit )
+            bool handle_phy_request( std::uint8_t opcode, std::uint8_t size, const write_buffer& pdu, read_buffer& write, LL& link_layer, bool& commit, bool& instant_passed )
             {
                 assert( link_layer.defered_ll_control_pdu_.buffer == nullptr );
 
@@ -318,8 +318,15 @@ namespace link_layer {
                         return true;
                     }
 
-                    link_layer.defere_ll_control_pdu( pdu );
                     link_layer.defered_conn_event_counter_ = ::bluetoe::details::read_16bit( pdu_body + 3 );
+
+                    if ( link_layer.instant_passed( link_layer.defered_conn_event_counter_ ) )
+                    {
+                        instant_passed = true;
+                        return true;
+                    }
+
+                    link_layer.defere_ll_control_pdu( pdu );
 
                     return true;
                 }
@@ -368,7 +375,7 @@ namespace link_layer {
         struct no_phy_update_request_impl
         {
             template < class LL >
-            bool handle_phy_request( std::uint8_t, std::uint8_t, const write_buffer&, read_buffer, LL&, bool& )
+            bool handle_phy_request( std::uint8_t, std::uint8_t, const write_buffer&, read_buffer, LL&, bool&, bool& )
             {
                 return false;
             }
@@ -758,6 +765,13 @@ namespace link_layer {
          * the receive buffer right after it was handled and its memory is reused for the next received PDUs.
          */
         void defere_ll_control_pdu( const write_buffer& pdu );
+
+        /*
+         * An instant is in the past, if ( instant - connEventCount ) mod 65536 >= 32767 (Vol 6, Part B, 5.1.1).
+         * While a received PDU is handled, connection_event_counter() is the counter of the connection event that
+         * just took place; the parameters of that event can not be changed any more, so that instant has passed too.
+         */
+        bool instant_passed( std::uint16_t instant ) const;
 
         connection_details details() const;
 
@@ -1575,6 +1589,7 @@ namespace link_layer {
 
         ll_result result = ll_result::go_ahead;
         bool      commit = true;
+        bool      phy_instant_passed = false;
 
         assert( write.size >= radio_t::min_buffer_size );
 
@@ -1591,8 +1606,9 @@ namespace link_layer {
                 defered_conn_event_counter_ = read_16bit( &body[ 10 ] );
                 commit = false;
 
-                if ( static_cast< std::uint16_t >( defered_conn_event_counter_ - this->connection_event_counter() + 1 ) & 0x8000
-                    || defered_conn_event_counter_ == this->connection_event_counter() + 1 )
+                // the new timing can not be applied to the very next connection event any more
+                if ( instant_passed( defered_conn_event_counter_ )
+                    || defered_conn_event_counter_ == static_cast< std::uint16_t >( this->connection_event_counter() + 1 ) )
                 {
                     disconnecting_reason_ = connection_instant_passed;
                     result = ll_result::disconnect;
@@ -1641,7 +1657,7 @@ namespace link_layer {
                 defered_conn_event_counter_ = read_16bit( &body[ 6 ] );
                 commit = false;
 
-                if ( static_cast< std::uint16_t >( defered_conn_event_counter_ - this->connection_event_counter() ) & 0x8000 )
+                if ( instant_passed( defered_conn_event_counter_ ) )
                 {
                     disconnecting_reason_ = connection_instant_passed;
                     result = ll_result::disconnect;
@@ -1728,9 +1744,14 @@ namespace link_layer {
             {
                 // all encryption PDU handled in handle_encryption_pdus()
             }
-            else if ( this->handle_phy_request( opcode, size, pdu, write, *this, commit ) )
+            else if ( this->handle_phy_request( opcode, size, pdu, write, *this, commit, phy_instant_passed ) )
             {
                 // all phy PDU handled in handle_phy_reqest
+                if ( phy_instant_passed )
+                {
+                    disconnecting_reason_ = connection_instant_passed;
+                    result = ll_result::disconnect;
+                }
             }
             else if ( opcode != LL_UNKNOWN_RSP )
             {
@@ -1799,6 +1820,14 @@ namespace link_layer {
 
         std::copy( pdu.buffer, pdu.buffer + size, &defered_ll_control_pdu_copy_[ 0 ] );
         defered_ll_control_pdu_ = write_buffer{ &defered_ll_control_pdu_copy_[ 0 ], size };
+    }
+
+    template < class Server, template < std::size_t, std::size_t, class > class ScheduledRadio, typename ... Options >
+    bool link_layer< Server, ScheduledRadio, Options... >::instant_passed( std::uint16_t instant ) const
+    {
+        const std::uint16_t distance = instant - this->connection_event_counter();
+
+        return distance == 0 || distance >= 32767;
     }
 
     template < class Server, template < std::size_t, std::size_t, class > class ScheduledRadio, typename ... Options >
